@@ -42,84 +42,134 @@ QFlatten(ss)  == LET RECURSIVE go(_)
 
 \* ==================================================================================
 \* 1. inverse-CDF sampler
-\*    case  c = [x : Seq(Int) strictly increasing, p : Seq(Int) positive, us : Seq(<<n,d>>)]
-\*    The tabulated cumulative distribution has one value per grid node 2..m (the
-\*    trapezoid rule has no integral at the first node): the "first tabulated
-\*    cumulative value" of the statement is SmpCum(x,p,2) > 0.
+\*    case  c = [kind : "density" | "cumulative", x : Seq(Int) strictly increasing,
+\*               p : Seq(Nat), us : Seq(<<n,d>>)]
+\*    kind "density"   : p are NON-NEGATIVE density values, not all zero (zeros make flat
+\*                       stretches of the cumulative distribution).  The tabulated
+\*                       cumulative distribution has one value per grid node 2..m (the
+\*                       trapezoid rule has no integral at the first node).
+\*    kind "cumulative": p is the accumulated distribution itself (cumulative=True), non-
+\*                       decreasing with p[m] > 0; every node 1..m is tabulated.
+\*    Either way the sampler interpolates a TABLE  t = [xs, cs]: abscissae xs (strictly
+\*    increasing) against normalised cumulative values cs (NON-strictly increasing,
+\*    cs[last] = 1).  The "first tabulated cumulative value" of the statement is cs[1].
+\*
+\*    What the statement demands where the table is flat (cs[k1] = ... = cs[k2] = f):
+\*      u = f  : "grid points are returned exactly where u equals their cumulative
+\*               value" - several grid points share f, any of xs[k1..k2] is acceptable;
+\*      u > f  : (strictly) the linear interpolation runs from the RIGHT end xs[k2] of the
+\*               flat stretch to the next node; u < f: it ends at the LEFT end xs[k1].
+\*    The nondeterminism is confined to the tie (SmpThmWellDefined, SmpThmBracket).
 \* ==================================================================================
-SmpValid(x, p) == /\ Len(x) = Len(p) /\ Len(x) >= 2
-                  /\ \A k \in 1..(Len(x) - 1) : x[k] < x[k + 1]
-                  /\ \A k \in DOMAIN p : p[k] > 0
 RECURSIVE SmpArea2(_, _, _)                     \* twice the trapezoid area up to node k
 SmpArea2(x, p, k) == IF k <= 1 THEN 0 ELSE SmpArea2(x, p, k - 1) + (x[k] - x[k - 1]) * (p[k] + p[k - 1])
 SmpCum(x, p, k)   == RNorm(SmpArea2(x, p, k), SmpArea2(x, p, Len(x)))       \* k \in 2..Len(x)
-SmpCumSeq(x, p)   == [k \in 1..(Len(x) - 1) |-> SmpCum(x, p, k + 1)]
-SmpFirstCum(x, p) == SmpCum(x, p, 2)
+SmpValid(c) == /\ Len(c.x) = Len(c.p) /\ Len(c.x) >= 2
+               /\ \A k \in 1..(Len(c.x) - 1) : c.x[k] < c.x[k + 1]
+               /\ \A k \in DOMAIN c.p : c.p[k] >= 0
+               /\ IF c.kind = "density" THEN \E k \in DOMAIN c.p : c.p[k] > 0
+                  ELSE c.p[Len(c.p)] > 0 /\ \A k \in 1..(Len(c.p) - 1) : c.p[k] <= c.p[k + 1]
+\* the table; sh = 0 always at the property level (sh = 1: off-by-one abscissae of a mechanism variant)
+SmpTable(c, sh) ==
+    LET m == Len(c.x) IN
+    IF c.kind = "density"
+    THEN [xs |-> [k \in 1..(m - 1) |-> c.x[k + 1 - sh]], cs |-> [k \in 1..(m - 1) |-> SmpCum(c.x, c.p, k + 1)]]
+    ELSE [xs |-> c.x, cs |-> [k \in 1..m |-> RNorm(c.p[k], c.p[m])]]
+SmpTN(t) == Len(t.xs)
+\* fewer than two distinct tabulated values: nothing to interpolate, the statement is silent
+SmpDegenerate(t) == SmpTN(t) < 2 \/ t.cs[1] = t.cs[SmpTN(t)]
 
-\* the straight line through the tabulated nodes k, k+1 evaluated at u
-SmpLine(x, p, k, u) ==
-    LET c0 == SmpCum(x, p, k)  c1 == SmpCum(x, p, k + 1)
-    IN RAdd(RInt(x[k]), RDiv(RMul(RSub(u, c0), RInt(x[k + 1] - x[k])), RSub(c1, c0)))
-\* segments of the table that contain u (two at an interior node)
-SmpSegs(x, p, u) == {k \in 2..(Len(x) - 1) : RLe(SmpCum(x, p, k), u) /\ RLe(u, SmpCum(x, p, k + 1))}
-\* the values the statement allows at u (a singleton wherever it constrains u, by continuity)
-SmpVals(x, p, u) == {SmpLine(x, p, k, u) : k \in SmpSegs(x, p, u)}
-SmpNodesAt(x, p, u) == {k \in 2..Len(x) : REq(u, SmpCum(x, p, k))}
+\* the straight line through the tabulated nodes k, k+1 (cs[k] < cs[k+1]) evaluated at u
+SmpLine(t, k, u) ==
+    RAdd(RInt(t.xs[k]), RDiv(RMul(RSub(u, t.cs[k]), RInt(t.xs[k + 1] - t.xs[k])), RSub(t.cs[k + 1], t.cs[k])))
+\* non-flat segments of the table that contain u
+SmpSegs(t, u) == {k \in 1..(SmpTN(t) - 1) : RLt(t.cs[k], t.cs[k + 1]) /\ RLe(t.cs[k], u) /\ RLe(u, t.cs[k + 1])}
+\* grid nodes whose cumulative value is u
+SmpTies(t, u) == {k \in 1..SmpTN(t) : t.cs[k] = u}
+\* the values the statement allows at u
+SmpVals(t, u) == {SmpLine(t, k, u) : k \in SmpSegs(t, u)} \cup {RInt(t.xs[k]) : k \in SmpTies(t, u)}
 \* the statement constrains the value for u at or above the first tabulated value (and <= 1)
-SmpConstrained(x, p, u) == Len(x) >= 3 /\ RLe(SmpFirstCum(x, p), u) /\ RLe(u, RInt(1))
-SmpSample(x, p, u) == CHOOSE v \in SmpVals(x, p, u) : TRUE
+SmpConstrained(t, u) == ~SmpDegenerate(t) /\ RLe(t.cs[1], u) /\ RLe(u, RInt(1))
 
 \* theorems about the definition (checked on every enumerated table in SamplerMC)
-SmpThmWellDefined(x, p, u) == SmpConstrained(x, p, u) => Cardinality(SmpVals(x, p, u)) = 1
-SmpThmGridPoint(x, p)      == \A k \in 2..Len(x) : Len(x) >= 3 => SmpVals(x, p, SmpCum(x, p, k)) = {RInt(x[k])}
-SmpThmInGrid(x, p, u)      == SmpConstrained(x, p, u) =>
-                                 \A v \in SmpVals(x, p, u) : RLe(RInt(x[2]), v) /\ RLe(v, RInt(x[Len(x)]))
-SmpThmMonotone(x, p, u1, u2) == (SmpConstrained(x, p, u1) /\ SmpConstrained(x, p, u2) /\ RLe(u1, u2)) =>
-                                 RLe(SmpSample(x, p, u1), SmpSample(x, p, u2))
-SmpThmCumIncreasing(x, p)  == /\ \A k \in 2..(Len(x) - 1) : RLt(SmpCum(x, p, k), SmpCum(x, p, k + 1))
-                              /\ RLt(RInt(0), SmpFirstCum(x, p)) /\ SmpCum(x, p, Len(x)) = RInt(1)
+SmpThmTable(t) == /\ \A k \in 1..(SmpTN(t) - 1) : RLe(t.cs[k], t.cs[k + 1]) /\ t.xs[k] < t.xs[k + 1]
+                  /\ RLe(RInt(0), t.cs[1]) /\ t.cs[SmpTN(t)] = RInt(1)
+\* a single value, except at a tie of two or more grid nodes where exactly those nodes are allowed
+SmpThmWellDefined(t, u) == SmpConstrained(t, u) =>
+    \/ Cardinality(SmpVals(t, u)) = 1
+    \/ Cardinality(SmpTies(t, u)) >= 2 /\ SmpVals(t, u) = {RInt(t.xs[k]) : k \in SmpTies(t, u)}
+SmpThmGridPoint(t) == ~SmpDegenerate(t) => \A k \in 1..SmpTN(t) : RInt(t.xs[k]) \in SmpVals(t, t.cs[k])
+SmpThmInGrid(t, u) == SmpConstrained(t, u) =>
+    \A v \in SmpVals(t, u) : RLe(RInt(t.xs[1]), v) /\ RLe(v, RInt(t.xs[SmpTN(t)]))
+\* every node at or below u bounds the value from below, every node at or above u from above,
+\* strictly off the tie: just above a flat stretch the value starts at its RIGHT end
+SmpThmBracket(t, u) == SmpConstrained(t, u) => \A v \in SmpVals(t, u) : \A k \in 1..SmpTN(t) :
+    /\ RLt(t.cs[k], u) => RLe(RInt(t.xs[k]), v)
+    /\ RLt(u, t.cs[k]) => RLe(v, RInt(t.xs[k]))
+SmpThmMonotone(t, u1, u2) == (SmpConstrained(t, u1) /\ SmpConstrained(t, u2) /\ RLt(u1, u2)) =>
+    \A v1 \in SmpVals(t, u1), v2 \in SmpVals(t, u2) : RLe(v1, v2)
 
-\* mechanism (Generator.initialize_points + stat.interplin): xvals = x[1:], pcum, and
-\*   xm = searchsorted(pcum, u) - 1 clamped to [0, size-2]; XShift = 0 is the code,
-\*   XShift = 1 the off-by-one "xvals = x[:-1]" (self-test of the refinement check)
-SmpSearch(x, p, u) == Cardinality({j \in 2..Len(x) : RLt(SmpCum(x, p, j), u)})          \* side='left'
-SmpClamp(x, xm0)   == LET n == Len(x) - 1
-                          a == IF xm0 >= n - 1 THEN n - 2 ELSE xm0
-                      IN IF a < 0 THEN 0 ELSE a
-SmpMechEval(x, p, u, xm, XShift) ==
-    LET k  == xm + 2
-        c0 == SmpCum(x, p, k)  c1 == SmpCum(x, p, k + 1)
-        v0 == x[k - XShift]    v1 == x[k + 1 - XShift]
-    IN RAdd(RMul(RSub(u, c0), RDiv(RInt(v1 - v0), RSub(c1, c0))), RInt(v0))
+\* mechanism (Generator.initialize_* + stat.interplin on the arrays xvals, pcum):
+\*   xm = searchsorted(pcum, u, side='left') - 1 clamped to [0, size-2]; value = line through
+\*   nodes xm, xm+1.  A zero-width segment divides by zero: nan (0/0) or +-inf.
+\*   Dedup = "none"         : the arrays as tabulated (the code)
+\*           "unique_first" : numpy.unique(pcum, return_index=True) - keeps the LEFT end of every
+\*                            flat stretch (a deviating variant: interpolates across the gap)
+\*           "lead_last"    : drop the leading nodes that share the first value except the last
+\*                            (the repair of the 0/0 at a leading flat stretch)
+SmpKeep(t, Dedup) ==
+    LET n == SmpTN(t) IN
+    IF Dedup = "unique_first" THEN {k \in 1..n : k = 1 \/ t.cs[k] # t.cs[k - 1]}
+    ELSE IF Dedup = "lead_last" THEN {k \in 1..n : k = n \/ t.cs[k + 1] # t.cs[1] \/ t.cs[k] # t.cs[1]}
+    ELSE 1..n
+SmpDedup(t, Dedup) == LET idx == VSortSet(SmpKeep(t, Dedup))
+                      IN [xs |-> [k \in DOMAIN idx |-> t.xs[idx[k]]], cs |-> [k \in DOMAIN idx |-> t.cs[idx[k]]]]
+SmpSearch(t, u) == Cardinality({j \in 1..SmpTN(t) : RLt(t.cs[j], u)})          \* side='left'
+SmpClamp(t, xm0) == LET n == SmpTN(t)
+                        a == IF xm0 >= n - 1 THEN n - 2 ELSE xm0
+                    IN IF a < 0 THEN 0 ELSE a
+SmpMechEval(t, u, xm) ==
+    LET k == xm + 1 IN
+    IF SmpTN(t) < 2 THEN Err("IndexError")
+    ELSE IF t.cs[k] = t.cs[k + 1] THEN (IF u = t.cs[k] THEN Err("nan") ELSE Err("inf"))
+    ELSE Ok(RAdd(RMul(RSub(u, t.cs[k]), RDiv(RInt(t.xs[k + 1] - t.xs[k]), RSub(t.cs[k + 1], t.cs[k]))), RInt(t.xs[k])))
+\* the one place where the code as it stands leaves the statement: u equal to the first
+\* tabulated value when that value is shared by the first two nodes (0/0 -> nan)
+SmpLeadingTie(t, u) == SmpTN(t) >= 2 /\ u = t.cs[1] /\ t.cs[1] = t.cs[2]
+\* the right end of the leading stretch of nodes that share the first tabulated value: below
+\* that value the statement only asks for a non-decreasing map, i.e. a value <= xs[SmpLeadRight]
+SmpLeadRight(t) == VSetMax({k \in 1..SmpTN(t) : t.cs[k] = t.cs[1]})
 
 \* acceptance --------------------------------------------------------------------------
-\* o = [err, cnt : Int, v : Seq(obs), ing, lef : Seq(BOOLEAN), mono : Seq(BOOLEAN)]
-\*   ing[q]  : the returned value lies within the tabulated grid [x[2], x[m]] (to rounding)
-\*   lef[q]  : the returned value is <= x[2] (to rounding)
+\* o = [err, cnt : Int, v : Seq(obs), ing : Seq(BOOLEAN), nb : Seq(Int), mono : Seq(BOOLEAN)]
+\*   ing[q]  : the returned value lies within the tabulated grid [xs[1], xs[last]] (to rounding)
+\*   nb[q]   : how many tabulated abscissae lie below the returned value (beyond rounding); -1 = nan
 \*   mono[q] : value q <= value q+1 (to rounding); us is sorted ascending
 SmpFailingAt(c, o, q) ==
-    LET u == c.us[q]  x == c.x  p == c.p IN
-    IF SmpConstrained(x, p, u)
-    THEN (IF QObsIn(o.v[q], SmpVals(x, p, u)) THEN {}
-          ELSE IF SmpNodesAt(x, p, u) # {} THEN {"grid_point"} ELSE {"interp_value"})
+    LET u == c.us[q]  t == SmpTable(c, 0) IN
+    IF SmpConstrained(t, u)
+    THEN (IF QObsIn(o.v[q], SmpVals(t, u)) THEN {}
+          ELSE IF SmpTies(t, u) # {} THEN {"grid_point"} ELSE {"interp_value"})
          \cup (IF o.ing[q] THEN {} ELSE {"in_grid"})
-    ELSE IF Len(x) = 2 THEN (IF REq(u, RInt(1)) /\ ~QObsEq(o.v[q], RInt(x[2])) THEN {"grid_point"} ELSE {})
-    ELSE IF RLt(u, SmpFirstCum(x, p)) THEN (IF o.lef[q] THEN {} ELSE {"monotone_below_first"})
+    ELSE IF ~SmpDegenerate(t) /\ RLt(u, t.cs[1]) THEN (IF o.nb[q] >= 0 /\ o.nb[q] < SmpLeadRight(t) THEN {} ELSE {"monotone_below_first"})
     ELSE {}
 SmpFailing(c, o) ==
-    IF o.err # "none" THEN (IF Len(c.x) = 2 THEN {} ELSE {"unexpected_error"})    \* one tabulated node: no interpolation
+    IF ~SmpValid(c) THEN {"malformed_case"}
+    ELSE IF o.err # "none" THEN (IF SmpDegenerate(SmpTable(c, 0)) THEN {} ELSE {"unexpected_error"})
     ELSE IF o.cnt # Len(c.us) \/ Len(o.v) # Len(c.us) THEN {"count"}
     ELSE UNION {SmpFailingAt(c, o, q) : q \in DOMAIN c.us}
-         \cup (IF \A q \in DOMAIN o.mono : o.mono[q] THEN {} ELSE {"monotone"})
+         \cup (IF SmpDegenerate(SmpTable(c, 0)) \/ \A q \in DOMAIN o.mono : o.mono[q] THEN {} ELSE {"monotone"})
 
 \* seeded real generators: the deviates are generic doubles, classified by the adapter
 \* against the exported first cumulative value: uc = "tab" (above it), "below", "edge"
-\* o = [err, cnt, n, pts : Seq([uc, ing, lef]), mono, repro : BOOLEAN]
+\* o = [err, cnt, n, pts : Seq([uc, ing, nb]), mono, repro : BOOLEAN]
 SmpRealFailing(c, o) ==
-    IF o.err # "none" THEN (IF Len(c.x) = 2 THEN {} ELSE {"unexpected_error"})
+    IF ~SmpValid(c) THEN {"malformed_case"}
+    ELSE IF SmpDegenerate(SmpTable(c, 0)) THEN {}
+    ELSE IF o.err # "none" THEN {"unexpected_error"}
     ELSE (IF o.cnt = c.n /\ Len(o.pts) = c.n THEN {} ELSE {"count"})
          \cup (IF \A q \in DOMAIN o.pts : o.pts[q].uc = "tab" => o.pts[q].ing THEN {} ELSE {"in_grid"})
-         \cup (IF \A q \in DOMAIN o.pts : o.pts[q].uc = "below" => o.pts[q].lef THEN {} ELSE {"monotone_below_first"})
+         \cup (IF \A q \in DOMAIN o.pts : o.pts[q].uc = "below" => (o.pts[q].nb >= 0 /\ o.pts[q].nb < SmpLeadRight(SmpTable(c, 0))) THEN {} ELSE {"monotone_below_first"})
          \cup (IF o.mono THEN {} ELSE {"monotone"})
          \cup (IF o.repro THEN {} ELSE {"reproducible"})
 
